@@ -6,6 +6,7 @@ import e3
 
 ROOT = e3.ROOT
 N_ENGINES = 11
+FEAT = []  # cargo feature arguments of the current harness build (set from the driver: see build_rt in /verif/check)
 
 
 def scan_unsafe():
@@ -67,7 +68,7 @@ def miri_engine(i, deep):
     out = os.path.join(ROOT, "evidence", f".C01.miri.{i}.json")
     t = time.time()
     try:
-        p = subprocess.run(["cargo", "+nightly", "miri", "run", "--offline", "-q", "-p", "rt", "--", "C01", "--tier", "miri", "--out", out] + sel, cwd=os.path.join(ROOT, "harness"), env=env,
+        p = subprocess.run(["cargo", "+nightly", "miri", "run", "--offline", "-q", "-p", "rt"] + FEAT + ["--", "C01", "--tier", "miri", "--out", out] + sel, cwd=os.path.join(ROOT, "harness"), env=env,
                            stdout=subprocess.PIPE, stderr=subprocess.PIPE, text=True, timeout=3 * 3600 if deep else 900)
     except subprocess.TimeoutExpired:
         return i, None, "timeout", "", time.time() - t
@@ -87,12 +88,16 @@ def run(tier, seed, drv):
     # ---- (1) compile-time battery
     drivers = ctfe_stage(rep)
     # ---- (2) native oracle stage
-    drv["build_rt"]()
+    drv["build_rt"]("C01")
+    FEAT[:] = drv["rt_build"]["feature_args"]
+    if drv["rt_build"]["excluded"]:
+        rep["notes"].append("engine modules left out of this run because they do not build against this tree (a rejected program cannot be undefined behaviour; their own properties' checks judge the rejection): " + ", ".join(drv["rt_build"]["excluded"]) + " | " + " | ".join(drv["rt_build"]["errors"][:4]))
+        rep.setdefault("caps_hit", []).append("engine modules not compiled: " + ",".join(drv["rt_build"]["excluded"]))
     rt = drv["run_rt"]("C01", tier, 3 * 3600)
     # ---- (3) Miri: first make sure the interpreter build exists (one build, then parallel runs)
     deep = tier == "thorough"
     env = dict(os.environ, CARGO_NET_OFFLINE="true", CARGO_TARGET_DIR=os.path.join(ROOT, "target", "miri"), MIRIFLAGS="-Zmiri-disable-isolation -Zmiri-ignore-leaks -Zmiri-symbolic-alignment-check")
-    b = subprocess.run(["cargo", "+nightly", "miri", "run", "--offline", "-q", "-p", "rt", "--", "C01", "--tier", "miri", "--out", "/dev/null", "--engines", "999"], cwd=os.path.join(ROOT, "harness"), env=env, stdout=subprocess.PIPE, stderr=subprocess.PIPE, text=True)
+    b = subprocess.run(["cargo", "+nightly", "miri", "run", "--offline", "-q", "-p", "rt"] + FEAT + ["--", "C01", "--tier", "miri", "--out", "/dev/null", "--engines", "999"], cwd=os.path.join(ROOT, "harness"), env=env, stdout=subprocess.PIPE, stderr=subprocess.PIPE, text=True)
     if b.returncode != 0:
         rep["machinery_errors"].append("cargo miri could not build/run the harness: " + b.stderr[-1500:])
         return rep
@@ -113,7 +118,7 @@ def run(tier, seed, drv):
                 confirmed = True
                 if only_sb:
                     env2 = dict(os.environ, CARGO_NET_OFFLINE="true", CARGO_TARGET_DIR=os.path.join(ROOT, "target", "miri"), MIRIFLAGS="-Zmiri-disable-isolation -Zmiri-ignore-leaks -Zmiri-symbolic-alignment-check -Zmiri-tree-borrows")
-                    p2 = subprocess.run(["cargo", "+nightly", "miri", "run", "--offline", "-q", "-p", "rt", "--", "C01", "--tier", "miri", "--out", "/dev/null", "--engines", str(i)] + (["--deep"] if deep else []), cwd=os.path.join(ROOT, "harness"), env=env2, stdout=subprocess.PIPE, stderr=subprocess.PIPE, text=True)
+                    p2 = subprocess.run(["cargo", "+nightly", "miri", "run", "--offline", "-q", "-p", "rt"] + FEAT + ["--", "C01", "--tier", "miri", "--out", "/dev/null", "--engines", str(i)] + (["--deep"] if deep else []), cwd=os.path.join(ROOT, "harness"), env=env2, stdout=subprocess.PIPE, stderr=subprocess.PIPE, text=True)
                     confirmed = "Undefined Behavior" in p2.stderr
                     if not confirmed:
                         rep["notes"].append(f"{name}: a Stacked-Borrows-only report was not confirmed under Tree Borrows and is not counted")
